@@ -108,18 +108,51 @@ theorem foldl_rewireOne_sameBest (o : Obj σ α) (sp : Space σ δ) (new : Nat) 
     exact (rewireOne_sameBest o sp new valid incs acc p).trans (ih _)
 
 /-- the state after the insertion stage is the choose-parent loop's state with other `motions`/`tie`. -/
-theorem growInsert_st (o : Obj σ α) (sp : Space σ δ) (s : St σ α δ) (nmotion : Nat) (nm : Motion σ α) (dstate : σ) :
-    ∃ cands ms t, (growInsert o sp s nmotion nm dstate).st =
+theorem growInsertDelayed_st (o : Obj σ α) (sp : Space σ δ) (s : St σ α δ) (nmotion : Nat) (nm : Motion σ α) (dstate : σ) :
+    ∃ cands ms t, (growInsertDelayed o sp s nmotion nm dstate).st =
       { (chooseParent sp s.motions nmotion dstate cands s []).2.2 with motions := ms, tie := t } := by
-  unfold growInsert
+  unfold growInsertDelayed
   exact ⟨_, _, _, rfl⟩
+
+/-- the classic loop (`delayCC_ = false`) touches the planner state only through `checkMotion`. -/
+theorem classicStep_sameBest (o : Obj σ α) (sp : Space σ δ) (ms : Array (Motion σ α)) (nmotion : Nat) (x : σ)
+    (a : Classic σ α δ) (p : Nat × Nat) : SameBest a.st (classicStep o sp ms nmotion x a p).st := by
+  unfold classicStep
+  split
+  · exact SameBest.refl _
+  · split
+    · exact SameBest.refl _
+    · rename_i m _
+      simp only []
+      split
+      · split
+        · have h := checkMotion_sameBest a.st m.state x
+          rcases hc : a.st.checkMotion m.state x with ⟨b, s'⟩
+          rw [hc] at h
+          cases b <;> exact h
+        · exact SameBest.refl _
+      · exact SameBest.refl _
+
+theorem foldl_classicStep_sameBest (o : Obj σ α) (sp : Space σ δ) (ms : Array (Motion σ α)) (nmotion : Nat) (x : σ)
+    (l : List (Nat × Nat)) (a : Classic σ α δ) : SameBest a.st (l.foldl (classicStep o sp ms nmotion x) a).st := by
+  induction l generalizing a with
+  | nil => exact SameBest.refl _
+  | cons p rest ih =>
+    simp only [List.foldl_cons]
+    exact (classicStep_sameBest o sp ms nmotion x a p).trans (ih _)
 
 theorem growInsert_sameBest (o : Obj σ α) (sp : Space σ δ) (s : St σ α δ) (nmotion : Nat) (nm : Motion σ α) (dstate : σ) :
     SameBest s (growInsert o sp s nmotion nm dstate).st := by
-  obtain ⟨cands, ms, t, h⟩ := growInsert_st o sp s nmotion nm dstate
-  rw [h]
-  exact ⟨(chooseParent_sameBest sp s.motions nmotion dstate cands s []).1,
-         (chooseParent_sameBest sp s.motions nmotion dstate cands s []).2⟩
+  unfold growInsert
+  split
+  · obtain ⟨cands, ms, t, h⟩ := growInsertDelayed_st o sp s nmotion nm dstate
+    rw [h]
+    exact ⟨(chooseParent_sameBest sp s.motions nmotion dstate cands s []).1,
+           (chooseParent_sameBest sp s.motions nmotion dstate cands s []).2⟩
+  · unfold growInsertClassic
+    exact foldl_classicStep_sameBest o sp s.motions nmotion dstate _
+      { par := nmotion, inc := o.motionCost nm.state dstate, cost := o.combine nm.cost (o.motionCost nm.state dstate),
+        valid := [], incs := [], st := s, stale := false }
 
 theorem grow_sameBest (o : Obj σ α) (sp : Space σ δ) (s : St σ α δ) (nmotion : Nat) (nm : Motion σ α) (dstate : σ) :
     SameBest s (grow o sp s nmotion nm dstate).1 := by
